@@ -238,6 +238,9 @@ class EdgeLandmark(BaseEdge):
             Whether the two edges are equal
 
         """
+        if not isinstance(other, EdgeLandmark):
+            return False
+
         if not type(self.offset) is type(other.offset):  # noqa
             return False
 
